@@ -536,7 +536,7 @@ func subRawPeer(args []string) {
 			}
 			select {
 			case <-done:
-			case <-time.After(300 * time.Millisecond):
+			case <-time.After(watchdog):
 				fmt.Println("BAD a call whose response arrived several times did not return (or a later call is stuck behind the surplus responses)")
 				i = 300
 			}
@@ -549,7 +549,7 @@ func subRawPeer(args []string) {
 			if err == nil {
 				fmt.Println("BAD Link returned nil after its transport reads failed")
 			}
-		case <-time.After(2 * time.Second):
+		case <-time.After(watchdog):
 			fmt.Println("BAD Link did not return after its transport reads failed")
 		}
 		for i := 0; i < victims; i++ {
@@ -558,8 +558,8 @@ func subRawPeer(args []string) {
 				if err == nil {
 					fmt.Println("BAD a call in flight returned a nil error after the link ended")
 				}
-			case <-time.After(2 * time.Second):
-				fmt.Printf("BAD %d of %d calls in flight still hang 2 s after the link ended (duplicated responses for OTHER calls had arrived before)\n", victims-i, victims)
+			case <-time.After(watchdog):
+				fmt.Printf("BAD %d of %d calls in flight still hang after the link ended (duplicated responses for OTHER calls had arrived before)\n", victims-i, victims)
 				i = victims
 			}
 		}
@@ -570,7 +570,7 @@ func subRawPeer(args []string) {
 			if err == nil {
 				fmt.Println("BAD a call made after the link ended returned a nil error")
 			}
-		case <-time.After(2 * time.Second):
+		case <-time.After(watchdog):
 			fmt.Println("BAD a call made after the link ended (duplicated responses had arrived before) hangs instead of failing")
 		}
 	case "missing-args-after-valid":
